@@ -349,7 +349,7 @@ func judge(c *lib.Ctx, name string, recs []rec) error {
 		if hi > len(recs) {
 			hi = len(recs)
 		}
-		bad, err := lib.Judge(c, name, c.SpecDir("StringLit"), "JudgeQuote", recs[lo:hi], c.Pick(4, 8), 10*time.Minute)
+		bad, err := lib.Judge(c, name, c.SpecDir("StringLit"), "JudgeQuote", recs[lo:hi], c.Pick(4, 8), 45*time.Minute)
 		if err != nil {
 			return err
 		}
@@ -446,7 +446,7 @@ func run(c *lib.Ctx) error {
 	strs := enumerate(c, maxLen)
 	nEnum := len(strs)
 	strs = append(strs, directed()...)
-	nRand := c.Pick(2000, 30000)
+	nRand := c.Pick(2000, 20000)
 	strs = append(strs, randomStrings(c, nRand)...)
 	c.Set("bounds", map[string]any{"max_len_enumerated": maxLen, "alphabets": len(alphabets), "enumerated_strings": nEnum,
 		"directed_strings": len(directed()), "random_strings": nRand, "random_max_len": 64, "quoting_functions": len(apis)})
@@ -476,9 +476,13 @@ func modelCheck(c *lib.Ctx, maxLen int) error {
 	var mu sync.Mutex
 	var firstErr error
 	lib.Parallel(len(alphabets), 4, func(i int) {
-		cfg := fmt.Sprintf("CONSTANT MaxLen = %d\nCONSTANT AlphaId = %d\nINIT Init\nNEXT Next\nINVARIANT Theorem\nINVARIANT Codec\n", maxLen, i+1)
+		n := maxLen
+		if c.Quick() && i%2 == 1 {
+			n = maxLen - 1 // quick tier: the two secondary alphabets one byte shorter (as in V)
+		}
+		cfg := fmt.Sprintf("CONSTANT MaxLen = %d\nCONSTANT AlphaId = %d\nINIT Init\nNEXT Next\nINVARIANT Theorem\nINVARIANT Codec\n", n, i+1)
 		r, err := c.TLC(fmt.Sprintf("MCStringLit/alphabet%d", i+1), lib.TLCRun{Dir: c.SpecDir("StringLit"), Module: "MCStringLit",
-			Workers: c.Pick(2, 4), Timeout: 12 * time.Minute, Files: map[string][]byte{"MCStringLit.cfg": []byte(cfg)}})
+			Workers: c.Pick(2, 4), Timeout: 45 * time.Minute, Files: map[string][]byte{"MCStringLit.cfg": []byte(cfg)}})
 		mu.Lock()
 		defer mu.Unlock()
 		if err != nil {
